@@ -30,6 +30,9 @@ import "zzmod/d"
 func NewT() *d.T {
 	t := &d.T{} // U-SAMENAME-LIT
 	t.F = 1 // U-SAMENAME-ASSIGN
+	t.F |= 2 // U-SAMENAME-COMPOUND
+	t.S[0] = 3 // U-SAMENAME-INDEX
+	t.F++ // U-SAMENAME-INCDEC
 	n := new(d.T) // U-SAMENAME-NEW
 	var z d.T // U-SAMENAME-VAR
 	_, _ = n, z
@@ -77,6 +80,9 @@ func ZZCrossImmCtor() {
 	CheckExact(ru.Diags, []Expect{
 		{fu, nd.LineOf(crossSrcU, "U-SAMENAME-LIT"), "CTOR01", hasCtor},
 		{fu, nd.LineOf(crossSrcU, "U-SAMENAME-ASSIGN"), "IMM01", imm},
+		{fu, nd.LineOf(crossSrcU, "U-SAMENAME-COMPOUND"), "IMM02", imm},
+		{fu, nd.LineOf(crossSrcU, "U-SAMENAME-INDEX"), "IMM04", imm},
+		{fu, nd.LineOf(crossSrcU, "U-SAMENAME-INCDEC"), "IMM03", imm},
 		{fu, nd.LineOf(crossSrcU, "U-SAMENAME-NEW"), "CTOR02", hasCtor},
 		{fu, nd.LineOf(crossSrcU, "U-SAMENAME-VAR"), "CTOR03", hasCtor},
 		{fu, nd.LineOf(crossSrcU, "U-ASSIGN"), "IMM01", imm},
